@@ -91,7 +91,7 @@ def port_name(desc, ch, port):
     if "leaf" in ch:
         return f"p{port}"
     if "zombie" in ch:
-        return f"z{port}"
+        return f"p{port}"          # the same pin names as the live leaves beside it
     return desc["defs"][ch["sub"]]["expo"][port][2]
 
 
@@ -125,7 +125,7 @@ def build_all(desc):
                     zs = lk.Solver(name="zombie")
                     inner = Structure(model=netlib.comp_model(ch["zombie"]))
                     zs.add_structure(inner)
-                    zs.map_pins({"z0": inner.pin["p0"], "z1": inner.pin["p1"]})
+                    zs.map_pins({"p0": inner.pin["p0"], "p1": inner.pin["p1"]})
                     built.setdefault("zombies", []).append((zs, inner))
                     sts.append(zs.put())
                 elif "leaf" in ch:
